@@ -408,9 +408,18 @@ def r6(run, ctx):
         if isinstance(a, ast.Assign) and any(isinstance(t, ast.Attribute) and
                                              t.attr == 'ignore_hook_failure' for t in a.targets):
             lst = a
-    if lst is None or not isinstance(lst.value, (ast.List, ast.Tuple)):
+    if lst is None:
         raise AnalysisError('C14 R6: default ignore_hook_failure list not found')
-    defaults = [astq.const_value(e) for e in lst.value.elts]
+    val = lst.value
+    if isinstance(val, ast.Call) and val.args:        # list(CONST) / CONST.copy()
+        val = val.args[0]
+    if isinstance(val, ast.Call) and isinstance(val.func, ast.Attribute):
+        val = val.func.value
+    if isinstance(val, ast.Name) and val.id in f.module.assigns:
+        val = f.module.assigns[val.id]
+    if not isinstance(val, (ast.List, ast.Tuple)):
+        raise AnalysisError('C14 R6: default ignore_hook_failure list not found')
+    defaults = [astq.const_value(e) for e in val.elts]
     tested = _tested_hooks(ctx)
     run.extra['hooks_whose_result_is_tested'] = sorted(tested)
     run.count('R6', len(tested), 3, 'hooks whose result is tested')
@@ -436,12 +445,24 @@ def r7(run, ctx):
             run.check('R7', guarded(cfg, n, lambda e: True if norm_text(e) == 'ignore_failure'
                                     else None, True), 'a hook joins the ignore list iff its flag is '
                       'set', f, n.ast, 'hooks join the ignore-failure list regardless of the flag')
+    # the list is appended to in place, so every watcher needs its own list object
+    from rules.common import is_fresh_container
+    init = ctx.fn(W + '__init__')
+    for a in walk_local(init.node):
+        if isinstance(a, ast.Assign) and any(isinstance(t, ast.Attribute) and
+                                             t.attr == 'ignore_hook_failure' for t in a.targets):
+            run.check('R7', is_fresh_container(a.value), 'each watcher owns its ignore-failure list '
+                      '(it is appended to in place)', init, a,
+                      'ignore_hook_failure aliases the shared object %s: setting the ignore flag '
+                      'for one watcher sets it for every watcher in the process'
+                      % norm_text(a.value), construct='ignore list aliases %s' % norm_text(a.value))
     rh = ctx.fn(W + '_resolve_hooks')
-    run.check('R7', 'self._resolve_hook(name, callable_or_name, ignore_failure)' in
-              norm_text(rh.node), 'the flag of each configured hook is passed on', rh, rh.node)
+    run.check('R7', astq.has_pattern(rh.node, 'for ($n, ($c, $i)) in hooks.items()', flatten=True)
+              and astq.has_pattern(rh.node, 'self._resolve_hook($n, $c, $i)'), 'the flag of each configured hook is passed on', rh, rh.node)
     gc = ctx.fn('circus.config:get_config')
     t = norm_text(gc.node)
-    run.check('R7', "val.append(False)" in t and "val[1] = to_bool(val[1])" in t and
-              "watcher['hooks'][hook_name] = val" in t,
+    run.check('R7', astq.has_pattern(t, "$v.append(False)") and
+              astq.has_pattern(t, "$v[1] = to_bool($v[1])") and
+              astq.has_pattern(t, "$w['hooks'][$h] = $v"),
               'hooks.NAME = callable[,flag]: flag parsed with to_bool, default False', gc, gc.node,
               'the ignore flag of a configured hook is not parsed as documented')
